@@ -1,5 +1,5 @@
-// Counterexample found by mirsym/z3 for property C09, template det_hidden_labeling: |x, y| { infdrange([x, y], &(1..=2)), diseqfd(x, y), q != x } with parameters []: two runs of the same query that differ only in the iteration order of the hash-based stores (insertion order vs every iteration reversd) give different answer sequences: ['_.0 where (_.0 != 1)'] vs ['_.0 where (_.0 != 2)'] (answer 0 differs)
-// Replay: /verif/check C09 --replay /verif/replay/cases/C09-det_hidden_labeling_order_dependent.rs
+// Counterexample found by mirsym/z3 for property C14, template syn_twice_closure_fresh: |a, b| { q == [a, b], twice({ pick(a.clone(), b.clone(), p0.clone(), p1.clone()) }) } with parameters [2, -3]: reference answer 2 is missing from the engine's answers (same ground instances; expected answers ['[2, _]', '[2, 2]', '[2, -3]', '[2, 2]', '[_, 2]', '[-3, 2]', '[-3, 2]', '[-3, _]', '[-3, -3]', '[2, -3]', '[-3, -3]', '[_, -3]'])
+// Replay: /verif/check C14 --replay /verif/replay/cases/C14-syn_twice_closure_fresh_order_or_count.rs
 #![allow(unused_imports, unused_variables, unused_mut)]
 use proto_vulcan::prelude::*;
 use proto_vulcan::lterm::LTerm;
@@ -104,14 +104,18 @@ fn replay() {
 }
 
 fn body() {
+    let p0: T = LTerm::from(2);
+    let p1: T = LTerm::from(-3);
     let query = proto_vulcan_query!(|q| {
-        |x, y| { infdrange([x, y], &(1..=2)), diseqfd(x, y), q != x }
+        |a, b| { q == [a, b], twice({ pick(a.clone(), b.clone(), p0.clone(), p1.clone()) }) }
     });
+    for _run in 0..30 {
     let re = |s: String| { let mut o = String::new(); let mut it = s.chars().peekable();
         while let Some(c) = it.next() { o.push(c); if c == '_' { if it.peek() == Some(&'.') { it.next(); while it.peek().map_or(false, |d| d.is_ascii_digit()) { it.next(); } } } } o };
-    let first: Vec<String> = query.run().take(LIMIT).map(|r| re(format!("{}", r.q))).collect();
-    for _ in 0..400 {
-        let again: Vec<String> = query.run().take(LIMIT).map(|r| re(format!("{}", r.q))).collect();
-        assert_eq!(first, again, "the same query produced two different answer sequences in one process");
+    let mut got: Vec<String> = query.run().take(LIMIT).map(|r| re(format!("{}", *r.q))).collect();
+    let mut expected: Vec<String> = vec!["[2, _]".to_string(), "[2, 2]".to_string(), "[2, -3]".to_string(), "[2, 2]".to_string(), "[_, 2]".to_string(), "[-3, 2]".to_string(), "[-3, 2]".to_string(), "[-3, _]".to_string(), "[-3, -3]".to_string(), "[2, -3]".to_string(), "[-3, -3]".to_string(), "[_, -3]".to_string()];
+    got.sort();
+    expected.sort();
+    assert_eq!(got, expected);
     }
 }
